@@ -123,7 +123,7 @@ def listing_eval(ctx, R, lst):
     from sa.util import module_resolver
     import re
     send = R.sender
-    env0 = {}
+    env0 = R.const_env(lst.params[0])
     for a, (pat, flags, _n) in R.regex_attrs.items():
         if isinstance(pat, (bytes, str)) and not a.startswith("<re:"):
             try:
@@ -150,6 +150,7 @@ def listing_eval(ctx, R, lst):
                 return fd.Inline(helpers[name])
             return None
         it = fd.Interp(lst.node, R.cls.name, oracle, resolve=module_resolver(ctx.program, R.module), loop_unroll=40, max_paths=400)
+        it.record_types = fd.record_types_of(R.module)
         try:
             paths = it.run(dict(env0))
         except fd.TooManyPaths:
@@ -170,6 +171,40 @@ def listing_eval(ctx, R, lst):
         decided += 1
         if got != want and first_bad is None:
             first_bad = (sample, got, want, p)
+    # the same client lists twice: the second answer is about the second payload only
+    if first_bad is None:
+        seq_env = dict(env0)
+        for sample in (b'"only" ACTIVE\r\n', b'"a"\r\n"c"\r\n', b""):
+            def oracle2(interp, e, name, recv, a, kw, st, sample=sample):
+                if name == "self." + send.name or (name and name.startswith("self.") and mangle(R.cls.name, name[5:]) == mangle(R.cls.name, send.name)):
+                    return [(fd.Tup([fd.Const("OK"), fd.Const(""), fd.Const(sample)]), None)]
+                if name and name.startswith("self.") and ("print" in name or "debug" in name.lower()):
+                    return [(fd.Const(None), None)]
+                if name and name.startswith("self.") and name[5:] in R.methods and R.methods[name[5:]] is not lst:
+                    return fd.Inline(R.methods[name[5:]])
+                if name in helpers and isinstance(e.func, ast.Name):
+                    return fd.Inline(helpers[name])
+                return None
+            it = fd.Interp(lst.node, R.cls.name, oracle2, resolve=module_resolver(ctx.program, R.module), loop_unroll=40, max_paths=400)
+            it.record_types = fd.record_types_of(R.module)
+            try:
+                paths = it.run(dict(seq_env))
+            except (fd.TooManyPaths, RecursionError):
+                break
+            if len(paths) != 1 or paths[0].kind != "return":
+                break
+            got = concrete(paths[0].value)
+            if got is None:
+                break
+            got = (got[0], list(got[1])) if isinstance(got, (tuple, list)) and len(got) == 2 and isinstance(got[1], (list, tuple)) else got
+            want = reference_listing(sample)
+            if got != want:
+                first_bad = (sample, got, want, paths[0])
+                ctx.violation("D5", lst, "model:listing-sequence", "after a listing with an active script, the listing %r is decoded as %r; it says %r: "
+                              "what an earlier reply said is reported again" % (sample, got, want), node=lst.node,
+                              witness="setactive(''), then listscripts(): the script that was active before is still reported active")
+                return True
+            seq_env = {k: v for k, v in paths[0].env.items() if k.startswith(lst.params[0] + ".")}
     if first_bad is None:
         ctx.holds("D2", "%s: %d sample listings (escaped quotes and backslashes, names ending in a backslash, literal payload lines, names "
                   "containing ACTIVE, non-ASCII) decode to the reference names" % (lst.qualname, decided))
@@ -186,6 +221,8 @@ def listing_eval(ctx, R, lst):
 
 def concrete(v):
     from sa import fd
+    if isinstance(v, fd.Const) and isinstance(v.v, fd.Rec) and getattr(v.v, "order", None):
+        return tuple(v.v.fields[k] for k in v.v.order)  # a NamedTuple is the tuple of its fields
     if isinstance(v, fd.Const):
         return v.v
     if isinstance(v, fd.Tup):
@@ -381,6 +418,47 @@ def decoder_rules(ctx, R, skip_d3=False):
             raise
         ctx.notice("D2", "no per-line name pattern to compare with the quoted-string language (%s); the decoder is decided by evaluation" % e.why)
 
+    # ---- D6 -----------------------------------------------------------------------
+    ctx.rule("D6", "what a public operation returns is the caller's: no list or dict it hands out is also kept on the client")
+    nlists = 0
+    for name_, f_ in R.methods.items():
+        if name_.startswith("_"):
+            continue
+        sn_ = f_.params[0] if f_.params else "self"
+        mutable = set()
+        for a_ in walk_no_nested(f_.node):
+            if isinstance(a_, ast.Assign) and len(a_.targets) == 1 and isinstance(a_.targets[0], ast.Name) and (
+                    isinstance(a_.value, (ast.List, ast.Dict, ast.ListComp, ast.DictComp)) or (
+                        isinstance(a_.value, ast.Call) and isinstance(a_.value.func, ast.Name) and a_.value.func.id in ("list", "dict", "set"))):
+                mutable.add(a_.targets[0].id)
+        if not mutable:
+            continue
+        nlists += 1
+
+        def bare(e, names):
+            """names of `names` that e holds as they are (not under list(), tuple(), a slice or a copy)"""
+            out = set()
+            if isinstance(e, ast.Name) and e.id in names:
+                out.add(e.id)
+            elif isinstance(e, (ast.Tuple, ast.List)):
+                for x in e.elts:
+                    out |= bare(x, names)
+            return out
+        returned = set()
+        for r_ in walk_no_nested(f_.node):
+            if isinstance(r_, ast.Return) and r_.value is not None:
+                returned |= bare(r_.value, mutable)
+        for a_ in walk_no_nested(f_.node):
+            if isinstance(a_, ast.Assign) and any(isinstance(t, ast.Attribute) and isinstance(t.value, ast.Name) and t.value.id == sn_ for t in a_.targets):
+                both = bare(a_.value, mutable) & returned
+                for nm in sorted(both):
+                    ctx.violation("D6", f_, "result-kept:%s" % nm, "%s returns the list/dict `%s` and also keeps that very object in %s: what the "
+                                  "caller does to the result changes what the client will answer (or act upon) next time"
+                                  % (f_.qualname, nm, norm(a_.targets[0])), node=a_,
+                                  witness="listscripts(); the caller removes a name from the result; an emulated rename onto that name overwrites the script")
+    if not any(f.rule == "D6" for f in ctx.findings):
+        ctx.holds("D6", "%d public operations build a list or dict; none is both returned and kept" % nlists)
+
     # ---- D3 -----------------------------------------------------------------------
     ctx.rule("D3", "the assembler keeps literal payload apart from line text")
     asm = R.assembler
@@ -405,6 +483,18 @@ def decoder_rules(ctx, R, skip_d3=False):
     ctx.rule("D4", "getscript returns the join of all decoded lines: no filter, slice or content-dependent branch")
     tvg = tainted_vars(R, get)
     probs = []
+    # the script is decoded strictly: an error policy that replaces or drops undecodable octets hands back another script
+    for n in walk_no_nested(get.node):
+        if isinstance(n, ast.Call) and isinstance(n.func, ast.Attribute) and n.func.attr == "decode" and any(
+                isinstance(x, ast.Name) and x.id in tvg for x in ast.walk(n.func.value)):
+            pol = n.args[1] if len(n.args) > 1 else next((k.value for k in n.keywords if k.arg == "errors"), None)
+            if pol is not None:
+                pv = const_value(ctx.program, get, pol)
+                if pv != "strict":
+                    ctx.violation("D4", get, "lossy-decode", "getscript decodes the downloaded script with the error policy %s: octets that are not "
+                                  "valid UTF-8 are replaced or dropped instead of being reported" % (repr(pv) if pv is not TOP else norm(pol)[:40]),
+                                  node=n, witness="a Latin-1 script comes back with U+FFFD characters; an emulated rename stores the altered copy and "
+                                  "deletes the original")
     for n in walk_no_nested(get.node):
         if isinstance(n, ast.Subscript) and any(isinstance(x, ast.Name) and x.id in tvg for x in ast.walk(n.value)):
             probs.append(("subscript", n))
